@@ -121,7 +121,14 @@ func genCluster(r *mrand.Rand, prop, tier string) simcore.Case {
 			case 1, 2:
 				cs.Ops = append(cs.Ops, simcore.Op{K: "stop-worker", A: []int64{at, int64(r.IntN(3)), 1 + int64(r.IntN(20))}})
 			case 3:
-				cs.Ops = append(cs.Ops, simcore.Op{K: "partition", A: []int64{at, int64(r.IntN(3)), 5 + int64(r.IntN(20))}})
+				if r.IntN(2) == 0 {
+					// a short cut (below the heart-beat deadline) right at a checkpoint tick: the
+					// StartCheckpoint call or an acknowledgement fails although nobody is declared dead
+					n := 1 + int64(r.IntN(int(horizon/60)))
+					cs.Ops = append(cs.Ops, simcore.Op{K: "partition", A: []int64{n*60000 - 300 + int64(r.IntN(1500)), int64(r.IntN(3)), 1 + int64(r.IntN(3))}})
+				} else {
+					cs.Ops = append(cs.Ops, simcore.Op{K: "partition", A: []int64{at, int64(r.IntN(3)), 5 + int64(r.IntN(20))}})
+				}
 			case 4:
 				cs.Ops = append(cs.Ops, killAllOp(r, &cs, horizon, 0))
 			default:
